@@ -32,7 +32,7 @@ int main(int argc, char** argv) {
         double shiftx = r.chance(0.6) ? r.uni(-3, 3) : 0, shifty = r.chance(0.6) ? r.uni(-3, 3) : 0;
         const double pq = 12, d = pq / (n - 1);
         double qc = -shiftx * d, pc = -shifty * d;
-        double qscale = r.logu(1e-3, 5e-3), pscale = r.logu(2e5, 2e6), fRF = r.logu(1e8, 1e9), V = r.logu(2e5, 4e6);
+        double qscale = r.logu(1e-3, 3e-3), pscale = r.logu(2e5, 2e6), fRF = r.logu(1e8, 5e8), V = r.logu(2e5, 4e6);   // k_RF*sigma <= 0.03: 'small amplitudes'
         std::ostringstream ds; ds << (sinus ? "sinus" : "linear") << " n=" << n << " it=" << it << " steps=" << steps << " shift=(" << shiftx << "," << shifty << ")";
         M.begin_case(c, ds.str());
         vh::set_grid(n, 1);
